@@ -28,9 +28,14 @@ TARGETS = {
                          ['dilute: solute and solvent are solids or liquids (the library declares dilution of '
                           'enzymes unsupported; C11 excludes it)']),
     'Container.dataframe': ({}, []),
-    'Unit.calculate_concentration_ratio': ({'params': {'solute': _kinds('solute', KINDS),
-                                                       'solvent': _kinds('solvent', NON_ENZYME)}},
-                                           ['the solvent of a mole-ratio computation is a solid or liquid']),
+    'Unit.calculate_concentration_ratio': ({'params': {'solute': _kinds('solute', NON_ENZYME),
+                                                       'solvent': _kinds('solvent', NON_ENZYME)},
+                                            'interp': {'pc_nums': ('mol', 'g', 'L')}},
+                                           ['mole-ratio helper: solute and solvent are solids or liquids for '
+                                            'mass/volume/mole numerators; the solute is an enzyme for activity numerators']),
+    'Unit.calculate_concentration_ratio#U': ({'params': {'solute': _kinds('solute', ('enzyme',)),
+                                                         'solvent': _kinds('solvent', NON_ENZYME)},
+                                              'interp': {'pc_nums': ('U',)}}, []),
 }
 
 
@@ -39,7 +44,7 @@ def scan(ctx, qualname):
     for a in assumptions:
         if a not in ctx.assumptions:
             ctx.assumptions.append(a)
-    return uscan.scan(ctx.model, qualname, opts, key='std')
+    return uscan.scan(ctx.model, qualname.split('#')[0], opts, key='std' + qualname)
 
 
 # ------------------------------------------------------------------------------------------------ recipe level
